@@ -802,6 +802,9 @@ func c16Gen(r *vlib.Rand) *c16Spec {
 	if r.Chance(1, 4) {
 		nd = r.Range(2, 5)
 	}
+	if r.Chance(1, 100) {
+		nd = r.Range(250, 330) // a long registration list
+	}
 	s.orderMode = r.Intn(5)
 	s.style = r.Intn(4)
 	two := [2]int8{int8(r.Intn(256) - 128), int8(r.Intn(256) - 128)}
@@ -1486,7 +1489,7 @@ var c16Tally struct{ conFirst, ttyFirst, overflow, failReports int }
 func TestVerifC16(t *testing.T) {
 	run := vlib.Start(t, "C16")
 	defer run.Finish()
-	run.SetRule("hal run: case = 0-10 mock drivers (consoles, terminals wrapping the real tty.VT, plain; 15% probe nil, 20% init failure; orders from the four named constants / random int8 / all equal / two values) registered in a permutation (random, consoles first, terminals first, failures first, ascending, descending), 0-6000 bytes logged before DetectHardware, further log writes from inside Probe and DriverInit (directly and through the writer hal hands to DriverInit), 0-6000 bytes logged afterwards, chunks of 1-700 bytes through four different kfmt entry points, early ring starting at offsets {0,1,1024,2040,2046,2047,random}; non-trivial = a console and a terminal initialised, at least one driver failed or probed nil, at least 3 drivers registered not already in detection order, and something was logged before the hand-over; distinct = fingerprint of (driver kinds, orders, names, failures, registration order, bytes logged, hand-over offset)")
+	run.SetRule("hal run: case = 0-10 (one case in 100: 250-330) mock drivers (consoles, terminals wrapping the real tty.VT, plain; 15% probe nil, 20% init failure; orders from the four named constants / random int8 / all equal / two values) registered in a permutation (random, consoles first, terminals first, failures first, ascending, descending), 0-6000 bytes logged before DetectHardware, further log writes from inside Probe and DriverInit (directly and through the writer hal hands to DriverInit), 0-6000 bytes logged afterwards, chunks of 1-700 bytes through four different kfmt entry points, early ring starting at offsets {0,1,1024,2040,2046,2047,random}; non-trivial = a console and a terminal initialised, at least one driver failed or probed nil, at least 3 drivers registered not already in detection order, and something was logged before the hand-over; distinct = fingerprint of (driver kinds, orders, names, failures, registration order, bytes logged, hand-over offset)")
 	run.Assume("mock drivers stand in for the shipped console/ACPI drivers; the terminal is the real tty.VT inside a recording wrapper; hal's own log lines are read back from the early ring at the next mock callback via the movement of the ring's write index, which assumes hal logs fewer than 2048 bytes between two callbacks; half of the consoles also take a font and/or a logo (mock FontSetter/LogoSetter) and every case boots with one of ten command lines (consoleFont=<known|unknown>, consoleLogo=off, unrelated words, empty) in a one-tag multiboot block; which font or logo is chosen is not judged")
 
 	savedDrivers := device.VerifC16Drivers()
